@@ -457,6 +457,28 @@ def plain_reading(cfg):
         and not (cfg.get('options') or {}).get('jsx.enabled')
 
 
+def tok_ext_holds(d, c='zzq'):
+    """The tokenizer hypothesis of C14_child_reads_below_flat on the implementation: `d>c` is tokenized as the tokens of d,
+    the operator `>` and the literal c.  None when d does not tokenize."""
+    from emmet.abbreviation.tokenizer import tokenize
+
+    def sig(t):
+        return (type(t).__name__, tuple((k, repr(getattr(t, k))) for k in sorted(dir(t)) if not k.startswith('_') and not callable(getattr(t, k))))
+    try:
+        a = tokenize(d)
+    except Exception:  # noqa
+        return None
+    try:
+        b = tokenize(d + '>' + c)
+    except Exception:  # noqa
+        return False
+    if len(b) != len(a) + 2 or [sig(t) for t in b[:len(a)]] != [sig(t) for t in a]:
+        return False
+    gt, ct = b[-2], b[-1]
+    return type(gt).__name__ == 'Operator' and getattr(gt, 'operator', None) == 'child' \
+        and type(ct).__name__ == 'Literal' and ct.value == c
+
+
 def resolved_tie(ctx, tables):
     """Every key of every generated table (and of the built-in tables): the decorated-alias theorems as an oracle on
     resolve_snippets, and the same resolved trees through the extracted model (SnipRun 7)."""
@@ -476,6 +498,10 @@ def resolved_tie(ctx, tables):
                 sf = not text_reaches_itself(table, k)
             else:
                 sf = not parser_reaches_itself(cfg, d)
+            te = tok_ext_holds(d)
+            ctx.cover('C14:tok-ext:%s' % ('holds' if te else 'not-tokenized' if te is None else 'fails'))
+            if te is False:
+                ctx.sample({'tok_ext_fails_for_definition': d})
             fails, seen = resolved_case(k, d, cfg, reverse, sf and plain_reading(cfg))
             ctx.count_eval(len(seen))
             ctx.cover('C14:resolved:%s' % ('self-free' if sf else 'reaches-itself'))
@@ -680,7 +706,7 @@ def run(ctx):
     n_corpus = len(cases)
     cases += builtin_cases()
     tables = []
-    cases += user_cases(ctx, 400 if ctx.tier == 'quick' else 6000, tables)
+    cases += user_cases(ctx, 400 if ctx.tier == 'quick' else 4000, tables)
     cases += variable_round_cases()
     lap('generate')
     wires, idx, impl = [], [], []
@@ -737,7 +763,7 @@ def run(ctx):
         acyclicity_tie(ctx, tables + builtin_tables[:3])
         lap('acyclicity tie')
         # the resolver oracle: html table in both attribute orders, the keys xsl / pug add or override, and the user tables
-        resolved_tie(ctx, (tables[:250] if ctx.tier == 'quick' else tables) +
+        resolved_tie(ctx, tables[:250 if ctx.tier == 'quick' else 2000] +
                      [builtin_tables[0], builtin_tables[3], ({'syntax': 'xsl'}, dict(xsl_snippets)), ({'syntax': 'pug'}, dict(pug_snippets))])
         lap('resolved tie')
     ctx.cov['corpus_cases'] = n_corpus
